@@ -201,26 +201,30 @@ def adjustNames (m : Module) : Module :=
 
 /-! ## libxmp_load_epilogue -/
 
+/-- `check_envelope`: three independent tests, each clearing one flag bit -/
 def checkEnvelope (e : Envelope) : Envelope :=
-  let e := if e.npt ≤ 0 ∨ e.npt > (xmpMaxEnvPoints : Int) then { e with on := false } else e
-  let e := if e.lps ≥ e.npt ∨ e.lpe ≥ e.npt then { e with floop := false } else e
-  let e := if e.sus ≥ e.npt ∨ e.sue ≥ e.npt then { e with fsus := false } else e
-  e
+  { e with
+    on := e.on && !(decide (e.npt ≤ 0) || decide (e.npt > (xmpMaxEnvPoints : Int)))
+    floop := e.floop && !(decide (e.lps ≥ e.npt) || decide (e.lpe ≥ e.npt))
+    fsus := e.fsus && !(decide (e.sus ≥ e.npt) || decide (e.sue ≥ e.npt)) }
 
 /-- `clamp_volume_envelope`: the value of every point `i < npt` is `data[2i+1]`. -/
 def clampVolumeEnvelope (volbase : Int) (e : Envelope) : Envelope :=
-  if e.on then
-    { e with data := e.data.mapIdx fun k v =>
-        if k % 2 = 1 ∧ ((k / 2 : Nat) : Int) < e.npt then clampC v 0 volbase else v }
-  else e
+  { e with data :=
+      if e.on then
+        e.data.mapIdx fun k v =>
+          if k % 2 = 1 ∧ ((k / 2 : Nat) : Int) < e.npt then clampC v 0 volbase else v
+      else e.data }
 
+/-- the two instrument loops of the epilogue for one instrument -/
 def epilogueIns (volbase : Int) (insvol : Bool) (x : Instrument) : Instrument :=
-  let x := if insvol then x else
-    { x with vol := volbase
-             sub := x.sub.map fun l => l.mapIdx fun j g => if (j : Int) < x.nsm then volbase else g }
-  { x with aei := clampVolumeEnvelope volbase (checkEnvelope x.aei)
-           fei := checkEnvelope x.fei
-           pei := checkEnvelope x.pei }
+  { x with
+    vol := if insvol then x.vol else volbase
+    sub := if insvol then x.sub
+           else x.sub.map fun l => l.mapIdx fun j g => if (j : Int) < x.nsm then volbase else g
+    aei := clampVolumeEnvelope volbase (checkEnvelope x.aei)
+    fei := checkEnvelope x.fei
+    pei := checkEnvelope x.pei }
 
 /-- the sustain-loop block (`xtra->sus/sue` against `xxs->len`) -/
 def epilogueSmp (s : Sample) (x : Xtra) : Sample × Xtra :=
